@@ -66,6 +66,24 @@ def run_smbo(name, space, fobj, seed, n_iter, cfg, init):
             cap["trained"] = True
             return r
         lipmod.LipschitzFunction.calculate = calc
+    splits = []
+    if name == "TreeStructuredParzenEstimators":
+        orig_gs = opt._get_samples
+
+        def gs():
+            best, worst = orig_gs()
+            X = list(opt.X_sample)
+
+            def idx(samples):
+                out = []
+                for smp in samples:
+                    hit = [i for i, x in enumerate(X) if x is smp]
+                    out.append(hit[0] if len(hit) == 1 else -1)
+                return out
+            splits.append(dict(Y=[float(y) for y in opt.Y_sample], best=idx(best), worst=idx(worst),
+                               n_best=max(round(len(X) * opt.gamma_tpe), 1), X=[tup(x) for x in X]))
+            return best, worst
+        opt._get_samples = gs
     steps = []
     try:
         with contextlib.redirect_stdout(io.StringIO()), contextlib.redirect_stderr(io.StringIO()):
@@ -87,6 +105,7 @@ def run_smbo(name, space, fobj, seed, n_iter, cfg, init):
     finally:
         if name == "LipschitzOptimizer":
             lipmod.LipschitzFunction.calculate = orig_calc
+    opt._verif_splits = splits
     return opt, steps, exc
 
 
@@ -102,20 +121,27 @@ def run(ctx):
                   "every model-based proposal: with the acquisition vector captured from the fitted model over the current candidate "
                   "set, the proposed position must be a candidate whose value no other candidate exceeds (model: proposal_ok); "
                   "non-trivial = >= 2 distinct acquisition values; distinct by (optimizer, seed, step)")
+    usp = ctx.unit("S:TPE best/worst split", "S",
+                   "every call of TreeStructuredParzenEstimators._get_samples in the runs (objectives with plateaus, so that equal scores "
+                   "straddle the cut): the observed (index_best, index_worst) must be the last n_best / first n - n_best entries of ONE "
+                   "argsort of Y_sample (model: tpe_split_ok: a permutation of range(n), Y non-decreasing along worst ++ best, "
+                   "|best| = max(round(n * gamma), 1)); non-trivial = Y_sample has a tie; distinct by (seed, call)")
     uw = ctx.unit("K:init_warm_start_smbo", "K",
                   "warm_start_smbo frames with in-space, out-of-space and non-finite rows in ascending / descending / shuffled spaces: "
                   "X_sample / Y_sample after construction vs the model; non-trivial = some row is filtered; distinct by (space, frame)")
     ctx.monitor_rule = ("X_sample / Y_sample == finite-scored evaluations in order (after the valid warm-start rows); every model-based "
                         "proposal attains the maximum of the captured acquisition vector; with replacement=False no position is "
-                        "proposed twice in the iteration phase by the model path; distinct by (optimizer, seed)")
+                        "proposed twice in the iteration phase by the model path; TPE's two densities are fitted on a partition of the training points; "
+                        "distinct by (optimizer, seed)")
     rng = ctx.sub_rng("c17")
-    tl, tc, pl, pc, wl, wc = [], [], [], [], [], []
+    tl, tc, pl, pc, wl, wc, spl, spc = [], [], [], [], [], [], [], []
     n_runs = 12 if ctx.quick else 80
     for it in range(n_runs):
         name = SMBO4[it % 4]
         space, meta = gen.gen_space(rng, ndims=rng.choice([1, 2]), sizes=(3, 5, 8), max_points=40)
         names = list(space.keys())
-        table, _ = gen.gen_table(rng, space, kind=rng.choice(["unimodal", "random", "negative"]), nonfinite=rng.choice([0, 0.15, 0.3]))
+        table, _ = gen.gen_table(rng, space, kind=rng.choice(["unimodal", "random", "negative"] if name != "TreeStructuredParzenEstimators"
+                                                               else ["plateau", "plateau", "random", "unimodal"]), nonfinite=rng.choice([0, 0.15, 0.3]))
         vt = {tuple(float(space[n][i]) for n, i in zip(names, p)): r[0] for p, r in table.items()}
 
         def fobj(para, vt=vt, names=names):
@@ -145,6 +171,19 @@ def run(ctx):
         for st in steps:
             for y in st["pre"]["Y"] + st["post"]["Y"] + [st["score"]]:
                 ss.add(y)
+        for ci, sp_ in enumerate(getattr(opt, "_verif_splits", [])):
+            n = len(sp_["Y"])
+            if n == 0:
+                continue            # nothing to train on: the fit raises and the step falls back to a random move
+            both = sorted(sp_["best"] + sp_["worst"])
+            if both != list(range(n)) or len(sp_["best"]) != sp_["n_best"]:
+                ctx.violation(dict(kind="tpe-split-not-partition", optimizer=name),
+                              dict(optimizer=name, cfg=jsonable(cfg), seed=seed, call=ci, Y_sample=sp_["Y"], index_best=sp_["best"], index_worst=sp_["worst"], n_best=sp_["n_best"]),
+                              "TPE: the two kernel densities are not fitted on a partition of the %d training points (best %r, worst %r)" % (n, sp_["best"], sp_["worst"]))
+            if all(i >= 0 for i in sp_["best"] + sp_["worst"]):
+                spl.append("(tpe_split_ok %s %s %s %s)" % (clist(sp_["Y"], ss.score), cnat(sp_["n_best"]), clist(sp_["best"], cnat), clist(sp_["worst"], cnat)))
+                spc.append(dict(cfg=jsonable(cfg), seed=seed, call=ci, Y_sample=sp_["Y"], index_best=sp_["best"], index_worst=sp_["worst"], n_best=sp_["n_best"]))
+                usp.count((seed, ci), nontrivial=len(set(sp_["Y"])) < n)
         hist = []
         proposed_iter = []
         for st in steps:
@@ -253,7 +292,9 @@ def run(ctx):
         uw.count((repr(jsonable(space)), repr(rows)), nontrivial=len(out[1]) < len(rows))
     ut.samples, up.samples, uw.samples = tc[:2], pc[:2], wc[:2]
     hdr = "Require Import Converter CoreOpt Smbo C17_proofs.\nDefinition pe := list_eqb Z.eqb."
+    usp.samples = spc[:2]
     for u, lits, cases, note in ((ut, tl, tc, "X/Y/candidate tracking differs from the model"), (up, pl, pc, "the proposal is not an acquisition maximiser of the model's rule"),
+                                 (usp, spl, spc, "TPE's best / worst split is not the split of one argsort of Y_sample"),
                                  (uw, wl, wc, "init_warm_start_smbo differs from the model")):
         failing, err = coq_eval_cases(u.name, hdr, "bool", lits, "fun b => b", shard=60)
         u.error = err
